@@ -24,11 +24,12 @@ var c06Triggers = []string{"DESTROY-5", "DESTROY+0", "DESTROY+7", "after_DESTROY
 // is still owned by it, every DESTROY hook task was triggered, only after the ordinary tasks had been
 // released, and was then released too, and the pending call was cancelled. When the request cannot be
 // honoured (state not allowed without force, already DONE) it returns an error and changes nothing.
-//verif:entry HarnessTeardown unwind=96 preempt=1 timers=lazy reach=destroyed,refused stub=github.com/AliceO2Group/Control/common/utils.TimeTrack nosched=github.com/AliceO2Group/Control/core/the.mu steps=8000000
+//verif:entry HarnessTeardown unwind=96 preempt=0 timers=lazy reach=destroyed,refused stub=github.com/AliceO2Group/Control/common/utils.TimeTrack nosched=github.com/AliceO2Group/Control/core/the.mu steps=8000000
+//verif:thorough HarnessTeardown preempt=1 paths=600000
 func HarnessTeardown() {
 	state := c06States[vrt.IntRange("state", 0, len(c06States)-1)]
 	force := vrt.Bool("force")
-	nhooks := vrt.IntRange("hooks", 0, 2)
+	nhooks := vrt.IntRange("hooks", 0, 2-vrt.Tier()) // thorough explores pre-emptions with at most one hook
 	names := []string{"t1", "t2", "h1", "h2"}[:2+nhooks]
 	events := make(chan event.Event, 16)
 	var world *task.VerifWorld
